@@ -26,6 +26,7 @@ RULE = ("(1) stacks: every stack of 0..3 entries (quick; 0..4 thorough sample + 
 RULE += (" Also: exits raising standard types (StopAsyncIteration, RuntimeError, KeyError, AttributeError, TypeError, GeneratorExit, Exception, BaseException), exits whose failure carries its own context chain or happens while re-raising, the block's exception object raised again after suppression, manager objects pushed without being entered, aclose() issued inside except/finally of an unrelated exception, managers that register a callback on the stack while being entered (enter succeeding or failing), callbacks registered with keywords named callback/self.")
 RULE += (' Also: exits answering an exception with an object whose truth value cannot be taken.')
 RULE += (' Also: what __(a)enter__ gives is falsy and awaitable (handed on untouched).')
+RULE += (" Also: histories with raising exits (an unwind ending in an exit's failure, then the same stack used again).")
 ASSUMPTIONS = ["nested async with/with statements of the running interpreter are the reference for routing",
                "__context__ chains are not compared"]
 EXHAUSTIVE_SUBSPACES = 'all 16842 stacks of <= 3 entries x block outcome; all histories of length <= 4 (thorough: 5) over 8 operations'
@@ -84,7 +85,7 @@ def cases(tier, seed, shard, nshards):
     # histories: enumerated up to length 4 over a small alphabet, random beyond
     alphabet = [["reg", "acm"], ["reg", "cb"], ["aclose", 0], ["pop_all", 0], ["block", 0, False], ["block", 0, True],
                 ["enter_fail", 0], ["aclose", 1], ["reg", "popper"], ["aclose", 0, "except"], ["reg", "enterreg"],
-                ["reg", "enterreg_fail"]]
+                ["reg", "enterreg_fail"], ["reg", "raiser"]]
     maxlen = 4 if tier == "quick" else 5
     for n in range(1, maxlen + 1):
         for hist in itertools.product(alphabet, repeat=n):
@@ -101,7 +102,7 @@ def cases(tier, seed, shard, nshards):
                 ops.append(["reg", "popper", k])
                 nstacks += 1  # a stack is created when (if) the popper runs; indices beyond are folded to 0
             elif r < 0.4:
-                ops.append(["reg", rng.choice(KINDS + ["enterreg", "enterreg_fail"]), k])
+                ops.append(["reg", rng.choice(KINDS + ["enterreg", "enterreg_fail", "raiser", "raiser"]), k])
             elif r < 0.5:
                 ops.append(["enter_fail", k])
             elif r < 0.65:
@@ -557,6 +558,10 @@ def exec_history(ops, factory):
                             stacks.append(stacks[_k].pop_all())
 
                         stacks[k].push_kind("cb", popper, nid)
+                    elif kind == "raiser":
+                        # an exit that fails: the unwind it belongs to ends by propagating ITS exception - and the
+                        # stack object stays as usable afterwards as any other
+                        await stacks[k].enter("acm", mk_entry("acm", "raise", nid, log, 0, 0))
                     else:
                         ent = mk_entry(kind, "falsy", nid, log, 0, 0)
                         if kind in ("acm", "scm"):
@@ -644,6 +649,11 @@ def model_history(ops):
             exc = "block" if (op[0] == "block" and op[2]) else None
             # like the implementations: entries are popped one by one from the stack's *current* content
             while pending[k]:
+                if pending[k][-1][1] == "raiser":
+                    i = pending[k].pop()[0]
+                    ran.append(("exit", i, exc, "E" if exc else None))
+                    exc = f"x{i}"  # from here on this exit's own failure is what the remaining exits see
+                    continue
                 entry = pending[k].pop()
                 i, kind = entry[0], entry[1]
                 if kind == "popper":
@@ -656,8 +666,11 @@ def model_history(ops):
                     ran.append(("cb", i, (i,), (("kw", i), ("callback", i), ("self", i))))
                 else:
                     ran.append(("exit", i, exc, "E" if exc else None))
-            if exc:
-                ran.append(("block-raised", "block"))
+            if exc and op[0] == "block":
+                ran.append(("block-raised", exc))
+            elif exc and not (len(op) > 2 and op[2] == "finally"):
+                # (the "finally" variant of the history's aclose swallows E itself)
+                ran.append(("op-raised", "E", exc))
         elif op[0] == "pop_all":
             k = op[1] if op[1] < len(pending) else 0
             pending.append(pending[k])
